@@ -52,7 +52,8 @@ Definition packet_order (p : packet) (b : bytes) : list (bytes * bytes) :=
   | None => pxattrs p
   end.
 
-(* kind 2001: (sel value) -> (bytes size).  Model: encode (in the emitted entry order) and size.
+(* kind 2001: (sel value) -> (bytes size); sel bit 0 = Stat / Packet, the other bits select the real
+   encode path (every path must produce the same bytes and agree with SizeVT).  Model: encode (in the emitted entry order) and size.
    Spec: the model DEcoder maps the real bytes back to the value (no unknown fields), and the
    real SizeVT is the real length. *)
 Definition run_2001 (input impl : sx) : sx :=
@@ -60,7 +61,7 @@ Definition run_2001 (input impl : sx) : sx :=
   | SL [SN sel; v] =>
     let implb := match impl with SL [SB b; SN _] => Some b | _ => None end in
     let impln := match impl with SL [SB _; SN n] => Some n | _ => None end in
-    if (sel =? 0) || (sel =? 2) then
+    if negb (N.testbit sel 0) then
       match dec_stat v with
       | None => v_malformed
       | Some s =>
@@ -272,37 +273,77 @@ Fixpoint items_prefixb (got : list sx) (sent : list packet) : bool :=
   | _ => false
   end.
 
+(* one stream: model output and specification verdict for what the implementation reports *)
+Definition framing_case (mode : N) (msgs : list packet) (ls : list (N * rerr)) (rest : list sx) (impl : sx)
+  : sx * bool :=
+  let impl_stream := match impl with SL [SB s; _] => s | _ => [] end in
+  let full := frames_ord msgs (stream_orders (S (length msgs)) impl_stream) in
+  let truncated := N.testbit mode 2 in
+  let stream :=
+    if truncated then
+      match rest with
+      | [SN cut] => if cut <? len full then firstn (N.to_nat cut) full else full
+      | _ => full
+      end
+    else full in
+  let chunks0 := fragment stream ls in
+  let chunks := if N.testbit mode 3 then eof_with_last chunks0 else chunks0 in
+  let m := SL [SB full; res_items (recv_msgs_x chunks)] in
+  (* a harness anomaly — (#ffff msg) panic, (#fffe) hang, (#fffd ..) aliasing / send error —
+     is never an acceptable outcome.  A complete stream through a reader that reports an
+     error at most with its last piece (Framing.tail_flagged: the hypothesis of
+     recv_all_fragmentation_x) must be received entirely; otherwise (cut stream, error in
+     mid-stream) no wrong packet may appear: a prefix, then at most one error *)
+  let sp := match impl with
+            | SL [SB _; SL got] =>
+              if negb truncated && tail_flagged_b chunks then items_eqb got msgs
+              else items_prefixb got msgs
+            | _ => false
+            end in
+  (m, sp).
+
 Definition run_2004 (input impl : sx) : sx :=
   match input with
   | SL (SN mode :: ps :: lens :: rest) =>
     match sx_list dec_packet ps, sx_list dec_piece lens with
     | Some msgs, Some ls =>
-      let impl_stream := match impl with SL [SB s; _] => s | _ => [] end in
-      let full := frames_ord msgs (stream_orders (S (length msgs)) impl_stream) in
-      let truncated := N.testbit mode 2 in
-      let stream :=
-        if truncated then
-          match rest with
-          | [SN cut] => if cut <? len full then firstn (N.to_nat cut) full else full
-          | _ => full
-          end
-        else full in
-      let chunks0 := fragment stream ls in
-      let chunks := if N.testbit mode 3 then eof_with_last chunks0 else chunks0 in
-      let m := SL [SB full; res_items (recv_msgs_x chunks)] in
-      (* a harness anomaly — (#ffff msg) panic, (#fffe) hang, (#fffd ..) aliasing / send error —
-         is never an acceptable outcome.  A complete stream through a reader that reports an
-         error at most with its last piece (Framing.tail_flagged: the hypothesis of
-         recv_all_fragmentation_x) must be received entirely; otherwise (cut stream, error in
-         mid-stream) no wrong packet may appear: a prefix, then at most one error *)
-      let sp := match impl with
-                | SL [SB _; SL got] =>
-                  if negb truncated && tail_flagged_b chunks then items_eqb got msgs
-                  else items_prefixb got msgs
-                | _ => false
-                end in
-      verdict m impl sp (SL [])
+      let r := framing_case mode msgs ls rest impl in
+      verdict (fst r) impl (snd r) (SL [])
     | _, _ => v_malformed
+    end
+  | _ => v_malformed
+  end.
+
+(* kind 2007: (mode ((packets lens)..) schedule) -> ((full-stream (item..))..), several
+   protoStreams in one process with interleaved RecvMsg calls.  The buffer pool they share is
+   outside the model: whatever the schedule, EVERY stream is judged on its own exactly as in
+   kind 2004 (model: recv_msgs_x on its own pieces; specification: it receives what was sent
+   on it). *)
+Definition dec_stream (s : sx) : option (list packet * list (N * rerr)) :=
+  match s with
+  | SL [ps; lens] => msgs <- sx_list dec_packet ps ;; ls <- sx_list dec_piece lens ;; Some (msgs, ls)
+  | _ => None
+  end.
+Fixpoint streams_cases (mode : N) (ss : list (list packet * list (N * rerr))) (impls : list sx) : list sx * bool :=
+  match ss with
+  | [] => ([], match impls with [] => true | _ => false end)
+  | (msgs, ls) :: ss' =>
+    let impl_i := match impls with x :: _ => x | [] => SL [] end in
+    let r := framing_case (N.land mode 1) msgs ls [] impl_i in
+    let rr := streams_cases mode ss' (match impls with _ :: t => t | [] => [] end) in
+    (fst r :: fst rr, snd r && snd rr && match impls with [] => false | _ => true end)
+  end.
+Definition run_2007 (input impl : sx) : sx :=
+  match input with
+  | SL [SN mode; SL streams; SL _] =>
+    match sx_list dec_stream (SL streams) with
+    | Some ss =>
+      let impls := match impl with SL l => l | _ => [] end in
+      let r := streams_cases mode ss impls in
+      (* an anomaly output (#ffff ..) etc. is an SL whose elements are not stream results:
+         every framing_case then judges false *)
+      verdict (SL (fst r)) impl (snd r) (SL [])
+    | None => v_malformed
     end
   | _ => v_malformed
   end.
